@@ -38,6 +38,15 @@ CHECKS.update({
  "C15": ("SIM-COMP", "as C14 with daily / hourly / minutely time rotation: start instants anywhere in the period, dense steps, instants exactly on / 1 ns around wall-clock boundaries, gaps of many periods, zones, naming schemes, optional size limit; oracle: which file each statement is in relative to the scheduled points (both documented readings accepted for interval k), file names encode the opening instant; sampling, not proof", COMP_NOTE + "; daily schedules judged on days without a DST change", "deterministic simulation of clock histories and disk state with a schedule reference model, ddmin-minimised replay"),
 })
 
+Q_NOTE = ("trusted: the fibre scheduler, the operational memory model (under-approximates C++11: seq_cst stronger than the standard, stores totally "
+          "ordered by execution, store history bounded to 8 — it can miss an allowed behaviour, never invent a forbidden one), the byte race detector and the FIFO model; "
+          "only payload bytes are race-checked, the queue's own non-atomic members are single-sided by the SPSC contract")
+Q_TECH = "deterministic simulation: seeded interleaving + weak-memory (stale load) search over the real queue class, happens-before race detector, FIFO reference model, ddmin-minimised replay"
+CHECKS.update({
+ "C01": ("SIM-Q", "seeded search over interleavings at every atomic operation x legal stale atomic-load values (operational C++11 release/acquire/relaxed model) x integer types (incl. uint8_t/uint16_t so position counters wrap) x capacities x record-size sequences x reader publish thresholds, on the unmodified BoundedSPSCQueueImpl<T>; oracle: FIFO model (lost / duplicated / reordered / torn / visible before commit), space and offset checks on every grant, happens-before race detector on every payload byte; sampling, not proof", Q_NOTE, Q_TECH),
+ "C02": ("SIM-Q", "as C01 on the unmodified UnboundedSPSCQueue with real mmap'd nodes: growth by one or several doublings, growth refused at the maximum, records larger than the maximum (must throw), shrink requests, repeated grow/shrink cycles; additionally: reported switch capacities vs the producer's node sequence, capacity never above the maximum, payload only inside live mappings, atomics of deleted nodes never touched again, every mapping freed; sampling, not proof", Q_NOTE, Q_TECH),
+})
+
 NA = [
  {"property_id": "C12", "reason": "pure function of (pattern, attribute values, message): no schedule, clock, fault, I/O or shared state for a simulator to control (DESIGN.md section 5)"},
  {"property_id": "C19", "reason": "pure function of (template, arguments) plus a content-keyed memo table; first-seen order cannot change a result (DESIGN.md section 5)"},
